@@ -11,7 +11,8 @@ use std::os::unix::io::{AsRawFd, FromRawFd};
 fn list_fds() -> Vec<(i32, u64, u64, bool, i64)> {
     // (fd, dev, ino, cloexec, f_type); uses getdents on /proc/self/fd through libc directly
     let mut out = Vec::new();
-    let dir = unsafe { libc::opendir(b"/proc/self/fd\0".as_ptr() as *const _) };
+    let path = std::ffi::CString::new(format!("/proc/{}/fd", unsafe { libc::getpid() })).unwrap();
+    let dir = unsafe { libc::opendir(path.as_ptr()) };
     if dir.is_null() {
         return out;
     }
